@@ -72,6 +72,13 @@ CLAIMS["C06"] = (
     "DESIGN.md §2 C06",
 )
 
+CLAIMS["C14"] = (
+    "constant folding of literal tables + own validators (bijection, energy, nearest-neighbour Gray adjacency); recognition of label generator / position permutation of generated tables with own arithmetic over all orders; closed forms",
+    "Literal constellations (BPSK, QPSK, OQPSK, pi/4-QPSK in both rotations and labellings, with and without normalisation) are extracted from the syntax tree by constant folding and validated by the checker: 2^b distinct points, labels a bijection, unit average energy, one-bit difference between all nearest neighbours where Gray labelling is promised, and a common pi/4 rotation between the two pi/4-QPSK constellations. For PSK/DPSK/PAM/QAM the label generator and the position permutation are recognised from the construction code and their composition is decided to be bijective and Gray along physical neighbours for every supported order. Normalisation must be division by sqrt(mean|c|^2) on every configuration path; the Gray utilities must have the closed forms valid for all non-negative integers (bounded log-step variants rejected), array forms elementwise. Decides the tables for all orders/options, exactly; custom user constellations are not covered.",
+    "Trusted: constfold.py (own evaluation of literal arithmetic), the recognisers of the construction loops (unknown shapes -> exit 2).",
+    "DESIGN.md §2 C14",
+)
+
 NOT_APPLICABLE = {
     "C09": "conjunction at run time of C02/C05/C06/C10/C11/C15 over component pairings and adversarial channels; its structural preconditions (stage order, LLR polarity, label agreement, block framing) are decided under C17, C15, C05, C20 - no additional clause is visible in the shape of the code (DESIGN.md §2 C09)",
 }
